@@ -446,7 +446,8 @@ func (c *regexpSimplifyChecker) factorPrefixSuffix(alt syntax.Expr) bool {
 	}
 
 	// Let x be a shorter string.
-	if len(x) > len(y) {
+	longerFirst := len(x) > len(y)
+	if longerFirst {
 		x, y = y, x
 	}
 	// Do we have a common prefix?
@@ -457,8 +458,10 @@ func (c *regexpSimplifyChecker) factorPrefixSuffix(alt syntax.Expr) bool {
 		return true
 	}
 	// Do we have a common suffix?
+	// `x|hx` lists the shorter alternative first; `h?x` would try the longer one first, which is
+	// only the same when the two literals cannot match at the same position (not so under (?i)).
 	head := strings.TrimSuffix(y, x)
-	if len(head) <= utf8.UTFMax && utf8.RuneCountInString(head) == 1 {
+	if longerFirst && len(head) <= utf8.UTFMax && utf8.RuneCountInString(head) == 1 {
 		c.out.WriteString(head + "?" + x)
 		c.score++
 		return true
